@@ -2856,3 +2856,43 @@ func (w *World) outWhole(fn *ssa.Function, ai int, depth int) (*Expr, bool) {
 	}
 	return e, true
 }
+
+// StripZeroAlts drops, everywhere in e, the empty alternatives of merged values (the "not found" default of a getter next
+// to what it read): for comparing two descriptions of one computation that were narrowed at different places.
+func StripZeroAlts(e *Expr) *Expr {
+	if e == nil || len(e.Args) == 0 {
+		return e
+	}
+	args := make([]*Expr, len(e.Args))
+	changed := false
+	for i, a := range e.Args {
+		args[i] = StripZeroAlts(a)
+		if args[i] != a {
+			changed = true
+		}
+	}
+	if e.Op == "phi" {
+		var keep []*Expr
+		for _, a := range args {
+			if a.Op != "zero" {
+				keep = append(keep, a)
+			}
+		}
+		if len(keep) > 0 && len(keep) < len(args) {
+			return mkPhi(keep)
+		}
+	}
+	if !changed {
+		return e
+	}
+	ne := *e
+	ne.Args = args
+	ne.str = ""
+	switch ne.Op {
+	case "field":
+		return fieldOf(args[0], ne.Name)
+	case "phi":
+		return mkPhi(args)
+	}
+	return &ne
+}
